@@ -89,7 +89,7 @@ impl Prop for C15 {
 
   fn gen(&self, tier: Tier, seed: u64) -> Vec<Case> {
     let mut out = Vec::new();
-    let draws = if tier == Tier::Quick { 2 } else { 20 };
+    let draws = if tier == Tier::Quick { 8 } else { 40 };
     for k in REAL_KINDS.iter() {
       for form in FORMS.iter() {
         for sc in SCENARIOS.iter() {
@@ -105,7 +105,13 @@ impl Prop for C15 {
             let (Some(av), Some(sv), Some(bv)) = (q_to_cval(k, a), q_to_cval(k, s), q_to_cval(k, b)) else { continue };
             let exp = progression(a, s, b, incl).map(|v| v.iter().map(|q| q_to_cval(k, *q)).collect::<Option<Vec<CVal>>>());
             let exp = match exp { Some(None) => continue, Some(Some(v)) => json!(v), None => J::Null };
-            let src = match *form { "excl" => "a..b", "incl" => "a..=b", "step-excl" => "a..s..b", _ => "a..s..=b" };
+            // operand forms: each of start / step / end is a variable or an inline literal (kernels dispatch on that); the
+            // combination rotates with the draw so that every (kind, form) sees all of them across scenarios
+            let combo = (d as usize + sc.len() + form.len()) % 8;
+            let sp = |bit: usize, name: &str, v: &CVal| -> String { match lit(v) { // (no literal form for negative values, nor for integers beyond 2^53: typed literals pass through f64, a recorded C13 finding)
+              Some(l) if combo & (1 << bit) != 0 && !l.starts_with('-') && l.chars().take_while(|c| c.is_ascii_digit()).count() <= 15 => l, _ => name.to_string() } };
+            let (sa, ss, sb) = (sp(0, "a", &av), sp(1, "s", &sv), sp(2, "b", &bv));
+            let src = match *form { "excl" => format!("{}..{}", sa, sb), "incl" => format!("{}..={}", sa, sb), "step-excl" => format!("{}..{}..{}", sa, ss, sb), _ => format!("{}..{}..={}", sa, ss, sb) };
             out.push(Case { id, cell, input: json!({"kind": k, "a": av, "s": sv, "b": bv, "src": src, "expect": exp, "mode": "exact"}) });
           }
         }
